@@ -80,6 +80,9 @@ func (ex *Exec) safetyCall(fr *Frame, st *State, site ssa.Instruction, role stri
 }
 
 func (ex *Exec) callByKey(fr *Frame, key string, callee *ssa.Function, args, bindings []Value, resT types.Type, pos token.Pos, site ssa.Instruction, st *State, k func(*State, Value)) {
+	if i := strings.Index(key, "["); i > 0 && callee != nil && !inRepo(callee) {
+		key = key[:i] // instantiation of a generic external function
+	}
 	st.Trace = append(st.Trace, "call "+key)
 	ex.checkCallsite(fr, key, callee, args, site, st)
 	if in, ok := intrinsics[key]; ok {
